@@ -56,6 +56,12 @@ func genLoopCfg(r *rand.Rand, i int) loopCfg {
 	c.Version = []string{"7.2.0", "7.2.0", "6.2.6"}[r.Intn(3)]
 	c.BufSize = []int{16, 128, 4096}[r.Intn(3)]
 	c.Conflict = r.Intn(3) != 0
+	// half of the loops run without any restart (the statement's "absent restarts")
+	if r.Intn(2) == 0 {
+		ev := func() string { return []string{"", "orderly", "lost-reply", "orderly"}[r.Intn(4)] }
+		c.EventAB, c.EventBA = ev(), ev()
+		c.EventK = 1 + r.Intn(4)
+	}
 	c.LateReverse = r.Intn(5) == 0
 	c.Clients = 2 + r.Intn(2)
 	c.OpsPerClient = []int{8, 12, 18}[r.Intn(3)]
@@ -66,13 +72,14 @@ func main() {
 	drive.Quiet()
 	run := harness.New("C13", "exploration",
 		"loop = PRNG(seed,i) → (replay mode by i mod 3, filter class by (i div 3) mod 5, window, snapshot phase yes/no with RESTORE or expanded replay, Redis version of the doubles (single-write "+
-			"transactions unwrapped from 7 on), reader buffer, replication-lag window with conflicting writes, reverse link started late from a snapshot of B) + client scripts of ≈60–170 id-carrying writes "+
+			"transactions unwrapped from 7 on), reader buffer, replication-lag window with conflicting writes, reverse link started late from a snapshot of B, per-link restart event: none / orderly stop after k units committed since the last frontier write / lost reply of the k-th EXEC, each followed by a restart through syncer.newOutput + StartPoint) + client scripts of ≈60–170 id-carrying writes "+
 			"(plain / MULTI / marker look-alikes in key, value and every other non-key argument, stand-alone, in transactions and in single-write transactions) issued concurrently over 4–6 connections; distinct = (mode, phases, filter class, rewrite kinds and no-op shrink shapes seen in the mirrored traffic, outcome)")
 	run.Watchdog(100 * time.Minute)
 	run.Assume("the double's propagation module emits what a Redis master would (fakeredis/role_propagate.go: SELECT, MULTI/EXEC wrapping per version, PXAT/PEXPIREAT/ABSTTL/XADD-id rewrites, no-op omission); lazy-expiry DELs are not modelled, TTLs are kept far in the future")
 	run.Assume("both sites standalone: one lane per link, links execute their stream in order; 'applied' = executed by a link connection (every connection that is not one of the harness' own named connections)")
 	run.Assume("the two sites only write shared keys with commands that cannot fail on the other site's value (bisync does not arbitrate conflicts); the statement's 'absent restarts' holds: no link is restarted")
 	run.Assume("in bisync mode the tool replays every source database into database 0 of the target (dispatchBisyncUnit never selects a database); writes the clients make in databases 1..3 are foreign writes judged on exactly-once like any other, the database they land in is not judged; they also move the site's replication stream out of database 0, so that the links' transactions are propagated with a SELECT (inside the MULTI for the Redis ≥ 7 model, before it for 6.2)")
+	run.Assume("link restarts (half of the loops): the old incarnation's connections are allowed to drain before the next start-up reads the resume position; repeats of units after a restart are legal in pipeline/parallel mode (counted), a violation in sync mode and whenever no restart lies between the two executions")
 	run.MinDistinct(6)
 
 	n := run.N(720, 7200)
@@ -153,6 +160,9 @@ func oneLoop(run *harness.Run, key string, r *rand.Rand, c loopCfg) {
 	ctx, cancelAll := context.WithCancel(context.Background())
 	defer cancelAll()
 	lAB, lBA := newLink(A, B), newLink(B, A)
+	B.srv.With(func([]fakeredis.DB) { B.inLink = lAB })
+	A.srv.With(func([]fakeredis.DB) { A.inLink = lBA })
+	env.links = map[string]*link{"A": lBA, "B": lAB} // by destination site
 	links := []*link{lAB, lBA}
 	sites := []*site{A, B}
 	baseA, baseB := A.prop.Base(), B.prop.Base()
@@ -314,10 +324,27 @@ func oneLoop(run *harness.Run, key string, r *rand.Rand, c loopCfg) {
 		run.Count("lag_windows_with_conflicting_writes", 1)
 	}
 
+	// ---- restart / fault schedule: armed now, fires on logical events of the second wave
+	arm := func(dst *site, ev string) {
+		switch ev {
+		case "orderly":
+			dst.armRestart(c.EventK)
+		case "lost-reply":
+			dst.armFault(c.EventK)
+		}
+	}
+	arm(B, c.EventAB)
+	arm(A, c.EventBA)
+
 	if !wave(func(x *cl) []opSpec { return x.w2 }) {
 		stopAndJudge("client failure")
 		return
 	}
+
+	// what has not fired by now stays off: the sentinel phase runs without new restarts (one that is
+	// under way completes; the sentinels are delivered by the restarted link)
+	A.disarm()
+	B.disarm()
 
 	// pipeline / parallel: the frontier coordinator flushes every 100 ms and then deletes the journal
 	// records it covered with STAND-ALONE commands (DEL …:commit:…, ZREM …:index:…).  Give both
@@ -498,6 +525,16 @@ func finish(run *harness.Run, env *loopEnv, links []*link) {
 			rewrites["client-txn-unwrapped"] = true
 		}
 	}
+	nRestarts := 0
+	for _, l := range links {
+		for _, rs := range l.restartLog() {
+			nRestarts++
+			run.Count("link_restarts|"+rs.Kind+"|"+string(c.Mode), 1)
+		}
+	}
+	if nRestarts > 0 {
+		run.Count("loops_with_link_restarts", 1)
+	}
 	if env.s2Reached {
 		run.Count("loops_conclusive_after_S2", 1)
 		run.Count("quiet_rounds_checked", int64(env.quietRounds))
@@ -508,6 +545,9 @@ func finish(run *harness.Run, env *loopEnv, links []*link) {
 	}
 	if c.LateReverse {
 		phases += "+late-reverse-snapshot"
+	}
+	if nRestarts > 0 {
+		phases += "+restart"
 	}
 	rk := make([]string, 0, len(rewrites))
 	for k := range rewrites {
